@@ -200,6 +200,46 @@ Section P.
     - destruct Hs as [e Hs]. rewrite Hs. cbn [bind]. eauto.
   Qed.
 
+  (* the decoded text of the name the spec finds at p *)
+  Definition name_text (p : N) : list byte :=
+    match spec_name msg p with SAccept ls _ => join_labels (map snd ls) | SReject _ => [] end.
+
+  (* the Records iterator parses the same fields with its own code (records.rs read_impl) *)
+  Theorem iter_header_is_record_at c : whole c ->
+    match record_at msg (pos c) with
+    | Some it =>
+      (do* _ <- lift_c (skip_name msg); do* ty <- lift (c_u16 msg); do* cl <- lift (c_u16 msg);
+       do* ttl <- lift (c_u32 msg); do* rdlen <- lift (c_u16 msg); mret (ty, cl, ttl, rdlen)) c =
+      (c_set_pos c (a_type_off it + 10), Ok (a_type it, a_class it, a_ttl it, a_rdlen it)) /\
+      name_at msg (pos c) = Some (a_type_off it, a_fits255 it) /\
+      a_start it = pos c /\ a_end it = a_type_off it + 10 + a_rdlen it /\
+      a_data_ok it = (a_type_off it + 10 + a_rdlen it <=? lenN msg)
+    | None => exists c' e,
+      (do* _ <- lift_c (skip_name msg); do* ty <- lift (c_u16 msg); do* cl <- lift (c_u16 msg);
+       do* ttl <- lift (c_u32 msg); do* rdlen <- lift (c_u16 msg); mret (ty, cl, ttl, rdlen)) c = (c', Err e)
+    end.
+  Proof.
+    intro Hw. unfold record_at, mbind, mret, lift_c, lift, c_u16, c_u32.
+    pose proof (skip_is_name_at c Hw) as Hs. destruct (name_at msg (pos c)) as [[r fits]|].
+    - rewrite Hs. cbn [bind].
+      pose proof (c_be_is_be (c_set_pos c r) 2 (whole_set_pos c r Hw) ltac:(lia)) as H1. cbn [pos c_set_pos] in H1.
+      destruct (be msg r 2) as [t|]; [|destruct H1 as [e H1]; rewrite H1; eauto].
+      rewrite H1, set_pos_idem.
+      pose proof (c_be_is_be (c_set_pos c (r + 2)) 2 (whole_set_pos c _ Hw) ltac:(lia)) as H2. cbn [pos c_set_pos] in H2.
+      destruct (be msg (r + 2) 2) as [cl|]; [|destruct H2 as [e H2]; rewrite H2; eauto].
+      rewrite H2, set_pos_idem.
+      pose proof (c_be_is_be (c_set_pos c (r + 2 + 2)) 4 (whole_set_pos c _ Hw) ltac:(lia)) as H3. cbn [pos c_set_pos] in H3.
+      replace (r + 2 + 2) with (r + 4) in * by lia.
+      destruct (be msg (r + 4) 4) as [ttl|]; [|destruct H3 as [e H3]; rewrite H3; eauto].
+      rewrite H3, set_pos_idem.
+      pose proof (c_be_is_be (c_set_pos c (r + 4 + 4)) 2 (whole_set_pos c _ Hw) ltac:(lia)) as H4. cbn [pos c_set_pos] in H4.
+      replace (r + 4 + 4) with (r + 8) in * by lia.
+      destruct (be msg (r + 8) 2) as [rdl|]; [|destruct H4 as [e H4]; rewrite H4; eauto].
+      rewrite H4, set_pos_idem. cbn [a_type_off a_type a_class a_ttl a_rdlen a_start a_end a_data_ok a_fits255 pos c_set_pos].
+      replace (r + 8 + 2) with (r + 10) by lia. repeat split; reflexivity.
+    - destruct Hs as [e Hs]. rewrite Hs. cbn [bind]. eauto.
+  Qed.
+
   (* the fixed part of a record header behind a name that ends at r *)
   Lemma raw_marker_is_be c p s r : whole c ->
     match be msg r 2, be msg (r + 2) 2, be msg (r + 4) 4, be msg (r + 8) 2 with
